@@ -104,6 +104,13 @@ func (p *staticProp) Check(in map[string]any, model json.RawMessage) Verdict {
 		v.Disagree = "model reply unreadable"
 		return v
 	}
+	// "decimal numbers exactly": the bits reported for the decimal cells of the case passed the model's certificate
+	if n, failed := floatCertOf(model); len(failed) > 0 {
+		v.Disagree = fmt.Sprintf("float certificate: the conversion of cell %q is not the correctly rounded binary64 value", failed[0])
+		return v
+	} else if n > 0 {
+		v.Tags = append(v.Tags, "floats-certified")
+	}
 	inherit := gb(in, "inherit")
 	deflate := gb(in, "deflate")
 	run := func(ms []member) implStatic {
